@@ -553,7 +553,7 @@ def regenerate():
          "   py_rows: what real pytype (loader + attribute handler + PyTDFunction.call + matcher over",
          "   builtins.pytd) answers for explicit attribute loads / method calls on every builtin value head;",
          "   rt_rows: what CPython answers for type(v).name(v, a).  Name ids: see c14_names below. *)",
-         "From Coq Require Import List Bool Arith.", "From PV Require Import Ops.Model.", "Import ListNotations.", "",
+         "From Coq Require Import List.", "From PV Require Import Ops.Model.", "Import ListNotations.", "",
          f"Definition c14_nb : nat := {NB}.",
          "(* heads: " + " ".join(f"{i}={h[0]}" for i, h in enumerate(HEADS)) + " *)",
          "(* names: " + " ".join(f"{i}={n}" for i, n in enumerate(names)) + " *)", ""]
